@@ -33,10 +33,14 @@ Fixpoint each {S A : Type} (f : A -> S -> S * signal) (l : list A) (s : S) : S *
   | a :: l' => andthen (f a s) (each f l')
   end.
 
-(* HashedIterable.__iter__: [yield from self.values.values()] replays what is cached (no user code runs), then
-   [for v in self.iterable: self.values[v.id_] = v; yield v] pulls from the shared generator *)
+(* HashedIterable.__iter__ (since 1997e3c): a position [index] into the cache; each round replays the cached elements from
+   that position on (no user code runs), and when the replay has run dry takes ONE new element from the shared one-shot
+   generator, caches it and replays it in the next round.  For the consumer this is: at position i, replay if i elements or
+   more are cached, else pull element i and hand it out -- [touch].  (The code before 1997e3c replayed a live dict view and
+   then pulled and yielded; same events for one consumer.) *)
 Definition touch (x : var) (i : nat) (s : store) : store := if i <? npulls x s then s else Pull x i :: s.
-(* ... and the loop ends when the generator finishes; an exhausted generator runs no user code when asked again *)
+(* ... when the replay has run dry and the generator has nothing more, the loop ends: the generator is asked once more and
+   finishes ([End]); an already exhausted generator runs no user code when asked again *)
 Definition finish (x : var) (s : store) : store := if ended x s then s else End x :: s.
 Definition indexed {A : Type} (l : list A) : list (nat * A) := combine (seq 0 (length l)) l.
 Definition get_ev (v : val) (a : nat) (s : store) : store := match v with VO o => Get o a :: s | _ => s end.
